@@ -136,17 +136,19 @@ section dfa
 variable (syms : List α) {pats : List (List α)} {nodes : List (ACNode α)} {paths : List (List α)}
 variable (acc : List (Int × List (α × Int)) × List Int)
 
-/-- What `from_substrings` assembles from the result of the second BFS. -/
-def acTable (sf : Bool) : List (Int × List (α × Int)) × List Int :=
+/-- What `from_substrings` assembles from the result of the second BFS (`end_state = len(labels)`,
+one label per trie node). -/
+def acTable (nodes : List (ACNode α)) (sf : Bool) : List (Int × List (α × Int)) × List Int :=
   if sf then acc else
-    let e : Int := nat acc.1.length
+    let e : Int := nat nodes.length
     let toEnd := rowOf syms fun _ => e
     (acc.2.foldl (fun t s => ainsert s toEnd t) (ainsert e toEnd acc.1), sinsert e acc.2)
 
-def acDFA (contains sf : Bool) : DFA Int α :=
-  { states := akeys (acTable syms acc sf).1, syms := syms, trans := (acTable syms acc sf).1, init := 0,
-    finals := if contains then (acTable syms acc sf).2
-              else sdiff (akeys (acTable syms acc sf).1) (acTable syms acc sf).2,
+def acDFA (nodes : List (ACNode α)) (contains sf : Bool) : DFA Int α :=
+  { states := akeys (acTable syms acc nodes sf).1, syms := syms, trans := (acTable syms acc nodes sf).1,
+    init := 0,
+    finals := if contains then (acTable syms acc nodes sf).2
+              else sdiff (akeys (acTable syms acc nodes sf).1) (acTable syms acc nodes sf).2,
     allowPartial := false }
 
 variable (hL : Linked pats nodes paths) (hTab : Tabulated syms pats nodes paths acc)
@@ -155,11 +157,11 @@ include hL hTab
 /-! #### suffix mode -/
 
 theorem acSuffix_states (q : Int) :
-    q ∈ akeys (acTable syms acc true).1 ↔ ∃ v, v < nodes.length ∧ q = nat v := by
+    q ∈ akeys (acTable syms acc nodes true).1 ↔ ∃ v, v < nodes.length ∧ q = nat v := by
   simp only [acTable, if_true]; exact hTab.keys q
 
 theorem acSuffix_step (contains : Bool) (v : Nat) (hv : v < nodes.length) (a : α) (ha : a ∈ syms) :
-    (acDFA syms acc contains true).step? (some (nat v)) a = some (nat (gotoN nodes v a)) := by
+    (acDFA syms acc nodes contains true).step? (some (nat v)) a = some (nat (gotoN nodes v a)) := by
   simp only [DFA.step?, DFA.row, DFA.row?, acDFA, acTable, if_true]
   rw [hTab.rows v hv]
   simp [acRow, alookup_rowOf, ha]
@@ -169,7 +171,7 @@ theorem gotoN_lt (v : Nat) (hv : v < nodes.length) (a : α) : gotoN nodes v a < 
   obtain ⟨_, y, hy, _⟩ := gotoN_spec hL v paths[v] (List.getElem?_eq_getElem this) a
   rw [← hL.trie.len]; exact lt_of_getElem? hy
 
-theorem acSuffix_wf (contains : Bool) : (acDFA syms acc contains true).WF := by
+theorem acSuffix_wf (contains : Bool) : (acDFA syms acc nodes contains true).WF := by
   apply wf_of_lookup
   · simp only [acDFA, acTable, if_true]; exact hTab.keysNodup
   · intro q; rfl
@@ -193,17 +195,17 @@ theorem acSuffix_wf (contains : Bool) : (acDFA syms acc contains true).WF := by
       exact hq.1
 
 theorem acSuffix_run (contains : Bool) (w : List α) (hw : Over syms w) :
-    (acDFA syms acc contains true).run (some (nat 0)) w = some (nat (acState nodes w)) :=
-  (run_sim (acDFA syms acc contains true) nat (gotoN nodes) (fun v => v < nodes.length)
+    (acDFA syms acc nodes contains true).run (some (nat 0)) w = some (nat (acState nodes w)) :=
+  (run_sim (acDFA syms acc nodes contains true) nat (gotoN nodes) (fun v => v < nodes.length)
     (fun v a hv ha => ⟨acSuffix_step syms acc hL hTab contains v hv a ha,
       gotoN_lt syms acc hL hTab v hv a⟩) w 0 hL.trie.pos hw).1
 
 theorem acSuffix_accepts (contains : Bool) (hne : [] ∉ pats) (w : List α) :
-    (acDFA syms acc contains true).accepts w = true ↔
+    (acDFA syms acc nodes contains true).accepts w = true ↔
       Over syms w ∧ ((∃ p ∈ pats, p <:+ w) ↔ contains = true) := by
   by_cases hw : Over syms w
   · unfold DFA.accepts
-    rw [show (acDFA syms acc contains true).init = nat 0 from rfl,
+    rw [show (acDFA syms acc nodes contains true).init = nat 0 from rfl,
       acSuffix_run syms acc hL hTab contains w hw]
     have hlt := acState_lt hL w
     have hfin : nat (acState nodes w) ∈ acc.2 ↔ ∃ p ∈ pats, p <:+ w := by
@@ -226,8 +228,8 @@ theorem acSuffix_accepts (contains : Bool) (hne : [] ∉ pats) (w : List α) :
 /-! #### substring mode: absorbing end state -/
 
 theorem acSub_finals (q : Int) :
-    q ∈ (acTable syms acc false).2 ↔ ∃ v, v ≤ nodes.length ∧ q = nat v ∧ hot nodes v := by
-  simp only [acTable, Bool.false_eq_true, if_false, mem_sinsert, hTab.length, hTab.finals]
+    q ∈ (acTable syms acc nodes false).2 ↔ ∃ v, v ≤ nodes.length ∧ q = nat v ∧ hot nodes v := by
+  simp only [acTable, Bool.false_eq_true, if_false, mem_sinsert, hTab.finals]
   constructor
   · rintro (h | ⟨v, hv, e, ho⟩)
     · exact ⟨nodes.length, Nat.le_refl _, h, Or.inl rfl⟩
@@ -239,9 +241,9 @@ theorem acSub_finals (q : Int) :
       · right; exact ⟨v, by omega, e, ho⟩
 
 theorem acSub_states (q : Int) :
-    q ∈ akeys (acTable syms acc false).1 ↔ ∃ v, v ≤ nodes.length ∧ q = nat v := by
+    q ∈ akeys (acTable syms acc nodes false).1 ↔ ∃ v, v ≤ nodes.length ∧ q = nat v := by
   simp only [acTable, Bool.false_eq_true, if_false]
-  rw [mem_akeys_foldl_ainsert, mem_akeys_ainsert, hTab.length, hTab.keys, hTab.finals]
+  rw [mem_akeys_foldl_ainsert, mem_akeys_ainsert, hTab.keys, hTab.finals]
   constructor
   · rintro (⟨v, hv, e, _⟩ | h | ⟨v, hv, e⟩)
     · exact ⟨v, Nat.le_of_lt hv, e⟩
@@ -253,10 +255,10 @@ theorem acSub_states (q : Int) :
     · right; right; exact ⟨v, by omega, e⟩
 
 theorem acSub_lookup (v : Nat) (hv : v ≤ nodes.length) :
-    alookup (nat v) (acTable syms acc false).1 =
+    alookup (nat v) (acTable syms acc nodes false).1 =
       some (if hot nodes v then rowOf syms fun _ => nat nodes.length else acRow syms nodes v) := by
   simp only [acTable, Bool.false_eq_true, if_false]
-  rw [alookup_foldl_ainsert, alookup_ainsert, hTab.length]
+  rw [alookup_foldl_ainsert, alookup_ainsert]
   by_cases h1 : nat v ∈ acc.2
   · obtain ⟨v', hv', e, ho⟩ := (hTab.finals _).mp h1
     rw [← nat_inj.mp e] at ho
@@ -287,7 +289,7 @@ theorem subStep_le (v : Nat) (hv : v ≤ nodes.length) (a : α) : subStep nodes 
     exact Nat.le_of_lt (gotoN_lt syms acc hL hTab v this a)
 
 theorem acSub_step (contains : Bool) (v : Nat) (hv : v ≤ nodes.length) (a : α) (ha : a ∈ syms) :
-    (acDFA syms acc contains false).step? (some (nat v)) a = some (nat (subStep nodes v a)) := by
+    (acDFA syms acc nodes contains false).step? (some (nat v)) a = some (nat (subStep nodes v a)) := by
   simp only [DFA.step?, DFA.row, DFA.row?, acDFA]
   rw [acSub_lookup syms acc hL hTab v hv]
   unfold subStep
@@ -295,7 +297,7 @@ theorem acSub_step (contains : Bool) (v : Nat) (hv : v ≤ nodes.length) (a : α
   · simp [h, alookup_rowOf, ha]
   · simp [h, acRow, alookup_rowOf, ha]
 
-theorem acSub_wf (contains : Bool) : (acDFA syms acc contains false).WF := by
+theorem acSub_wf (contains : Bool) : (acDFA syms acc nodes contains false).WF := by
   apply wf_of_lookup
   · simp only [acDFA, acTable, Bool.false_eq_true, if_false]
     exact nodup_akeys_foldl_ainsert _ _ _ (nodup_akeys_ainsert hTab.keysNodup)
@@ -329,9 +331,9 @@ theorem acSub_wf (contains : Bool) : (acDFA syms acc contains false).WF := by
       exact hq.1
 
 theorem acSub_run (contains : Bool) (w : List α) (hw : Over syms w) :
-    (acDFA syms acc contains false).run (some (nat 0)) w = some (nat (w.foldl (subStep nodes) 0)) ∧
+    (acDFA syms acc nodes contains false).run (some (nat 0)) w = some (nat (w.foldl (subStep nodes) 0)) ∧
       w.foldl (subStep nodes) 0 ≤ nodes.length :=
-  run_sim (acDFA syms acc contains false) nat (subStep nodes) (fun v => v ≤ nodes.length)
+  run_sim (acDFA syms acc nodes contains false) nat (subStep nodes) (fun v => v ≤ nodes.length)
     (fun v a hv ha => ⟨acSub_step syms acc hL hTab contains v hv a ha,
       subStep_le syms acc hL hTab v hv a⟩) w 0 (Nat.zero_le _) hw
 
@@ -380,14 +382,14 @@ theorem acSub_inv (w : List α) :
       · intro _; rfl
 
 theorem acSub_accepts (contains : Bool) (w : List α) :
-    (acDFA syms acc contains false).accepts w = true ↔
+    (acDFA syms acc nodes contains false).accepts w = true ↔
       Over syms w ∧ ((∃ p ∈ pats, p <:+: w) ↔ contains = true) := by
   by_cases hw : Over syms w
   · unfold DFA.accepts
     obtain ⟨hrun, hle⟩ := acSub_run syms acc hL hTab contains w hw
-    rw [show (acDFA syms acc contains false).init = nat 0 from rfl, hrun]
+    rw [show (acDFA syms acc nodes contains false).init = nat 0 from rfl, hrun]
     obtain ⟨i1, i2⟩ := acSub_inv syms acc hL hTab w
-    have hfin : nat (w.foldl (subStep nodes) 0) ∈ (acTable syms acc false).2 ↔ ∃ p ∈ pats, p <:+: w := by
+    have hfin : nat (w.foldl (subStep nodes) 0) ∈ (acTable syms acc nodes false).2 ↔ ∃ p ∈ pats, p <:+: w := by
       rw [acSub_finals syms acc hL hTab]
       constructor
       · rintro ⟨v, hv, e, ho⟩
@@ -400,7 +402,7 @@ theorem acSub_accepts (contains : Bool) (w : List α) :
           exact hn ⟨z, hz, hs.isInfix⟩
       · intro hit
         exact ⟨_, hle, rfl, i1 hit⟩
-    have hst : nat (w.foldl (subStep nodes) 0) ∈ akeys (acTable syms acc false).1 :=
+    have hst : nat (w.foldl (subStep nodes) 0) ∈ akeys (acTable syms acc nodes false).1 :=
       (acSub_states syms acc hL hTab _).mpr ⟨_, hle, rfl⟩
     cases contains with
     | true => simp [DFA.isFinal, acDFA, hfin, hw]
@@ -413,17 +415,25 @@ end dfa
 
 /-! ### putting the phases together -/
 
+/-- The empty pattern in the set: `if "" in substrings: return universal_language /
+empty_language` (the repair of finding F10b). -/
+theorem fromSubstrings_empty (syms : List α) (pats : List (List α)) (contains sf : Bool)
+    (h : [] ∈ pats) :
+    fromSubstrings syms pats contains sf =
+      if contains then universalLanguage syms else emptyLanguage syms := by
+  unfold fromSubstrings; simp [h]
+
 theorem fromSubstrings_eq (syms : List α) (pats : List (List α)) (contains sf : Bool)
-    (hsyms : syms.Nodup) (hover : ∀ p ∈ pats, ∀ c ∈ p, c ∈ syms) :
+    (hsyms : syms.Nodup) (hover : ∀ p ∈ pats, ∀ c ∈ p, c ∈ syms) (hne : [] ∉ pats) :
     ∃ (nodes : List (ACNode α)) (paths : List (List α)) (acc : List (Int × List (α × Int)) × List Int),
       Linked pats nodes paths ∧ Tabulated syms pats nodes paths acc ∧
-      fromSubstrings syms pats contains sf = build (acDFA syms acc contains sf) := by
+      fromSubstrings syms pats contains sf = build (acDFA syms acc nodes contains sf) := by
   obtain ⟨paths, hT⟩ := acTrie_spec pats
   obtain ⟨nodes, h2, hL⟩ := acFailBfs_spec hT
   obtain ⟨acc, h3, hTab⟩ := acTransBfs_spec syms hL hsyms hover
   refine ⟨nodes, paths, acc, hL, hTab, ?_⟩
   unfold fromSubstrings
-  simp only
+  simp only [hne, if_false]
   rw [h2]
   simp only
   rw [h3]
